@@ -494,6 +494,28 @@ class CallMixin:
         if getattr(f.module, "is_spec", False) or self.spec_mode:
             return self.call_spec(f, args, kwargs)
         c = self.registry.contract_for(f.qualname)
+        top = self.frames[0].contract if self.frames else None
+        if c is not None and top is not None and f.qualname in top.inline_calls:
+            # the caller's contract asks for this callee's body (its precondition is still an
+            # obligation here; its own contract is verified separately)
+            bound = self.bind_args(f.node, args, kwargs, Env(f.module, {}, f.closure, cls=f.owner))
+            if "requires" in c.funcs:
+                caller = self.frames[-1].qualname
+                pre = self.truthy(self.eval_contract_fn(c, "requires", dict(bound)))
+                self.path.oblige(f"{caller}#pre:{c.short}@{self.call_ordinal(caller, c.short)}", pre, line=self.cur_line, kind="pre")
+            self.inlined.add(f.qualname)
+            old_heap = self.path.snapshot()
+            res = self.run_function(f, args, kwargs)
+            # the callee's own (separately verified) postcondition is available as a lemma
+            vals_ = dict(bound)
+            vals_["result"] = res
+            for en_ in sorted(n for n in c.funcs if n == "ensures" or n.startswith("ensures_") and n != "ensures_raise"):
+                try:
+                    self.path.assume(self.truthy(self.eval_contract_fn(c, en_, vals_, old_heap, dict(bound))))
+                except Unsupported:
+                    pass
+            self.path.snapshots.remove(old_heap)
+            return res
         if c is not None and not c.inline:
             bound = self.bind_args(f.node, args, kwargs, Env(f.module, {}, f.closure, cls=f.owner))
             return self.apply_contract(c, f, bound)
@@ -661,6 +683,11 @@ class CallMixin:
         line = self.cur_line
         for pn, kind in c.params.items():
             v = bound.get(pn)
+            if kind == "opaque:Chunks" and v is not None and not isinstance(v, VOpaque):
+                from .models.dulwichmodels import chunks_of, joined
+
+                bound[pn] = chunks_of(self, joined(self, v).t)
+                continue
             if isinstance(v, VOpt) and not kind.startswith("opt["):
                 # a possibly-None argument for a parameter the contract types as non-optional
                 self.path.oblige(f"{caller}#pre:{c.short}:{pn}-not-None@{self.call_counts.get((caller, c.short), 0)}",
@@ -688,11 +715,14 @@ class CallMixin:
         k = self.path.choose(len(outcomes), oc, label=f"call:{c.short}")
         kind, en = outcomes[k]
         self.called.add(c.target)
+        for eff in c.effects:  # the call happened, whatever its outcome
+            if isinstance(eff, (list, tuple)):
+                self.path.effects.append((eff[0],) + tuple(bound.get(a) for a in eff[1:]))
+            else:
+                self.path.effects.append((eff,))
         if kind == "normal":
             for target in c.modifies:
                 self.havoc_path(target, Env(c.module, dict(bound)))
-            for eff in c.effects:
-                self.path.effects.append((eff, dict(bound)))
             result = NONE
             if c.returns and c.returns != "none":
                 result = self.fresh_value(c.returns, f"{c.short}.ret")
@@ -700,6 +730,10 @@ class CallMixin:
             for en_ in sorted(n for n in c.funcs if n == "ensures" or n.startswith("ensures_") and n != "ensures_raise"):
                 post = self.truthy(self.eval_contract_fn(c, en_, values, old_heap, old_env))
                 self.path.assume(post)
+            if "names_result" in c.funcs:
+                # definitional: a ghost function names what this (deterministic, read-only) call returns
+                self.path.assume(self.truthy(self.eval_contract_fn(c, "names_result", values, old_heap, old_env)))
+                self.path.dropped.add(f"definitional naming of the result of {c.target} by a ghost function (assumed at call sites)")
             return result
         # exceptional outcome
         for target in c.modifies_on_raise:
